@@ -724,9 +724,16 @@ func pkgVarFacts() {
 func main() {
 	out := flag.String("out", "", "output Lean file")
 	outConc := flag.String("out-conc", "", "second output Lean file: the C14 facts (PV.FactsConc); not written when empty")
+	outFn := flag.String("out-fn", "", "fourth output Lean file: decision expressions translated into Lean functions (PV.FactsFn); not written when empty")
 	outAst := flag.String("out-ast", "", "third output Lean file: source text of the node/list primitives (PV.FactsAst); not written when empty")
 	flag.StringVar(&repo, "repo", "/repo", "repository root")
 	flag.Parse()
+	if *outFn != "" {
+		if err := writeFnFacts(*outFn); err != nil {
+			fmt.Fprintln(os.Stderr, err)
+			os.Exit(1)
+		}
+	}
 	if *outAst != "" {
 		if err := writeAstFacts(*outAst); err != nil {
 			fmt.Fprintln(os.Stderr, err)
